@@ -32,8 +32,16 @@ def gen_scn(ctx, k, flavour):
     per = max(5, total // nt)
     zr = gen.zero_response_names()
     mix = rng.choice(['zero', 'mixed', 'budgeted'])
-    sc.add(f'par {nt}')
+    sc.add(f'par {nt + (1 if normal else 0)}')
     cnt = 0
+    if normal:
+        # one more thread is the peer: spontaneous messages and error reports of every kind from the same nodes (a sequence-error report, a
+        # capacity announcement, feedback about unknown equipment ...) - nothing a node says changes the numbering of what is sent to it
+        from .. import uplink
+        kinds = [n_ for n_ in uplink.KNOWN_UP if n_ not in ('MSG_NODE_LOST', 'MSG_NODE_NEW', 'MSG_SYS_MAGIC', 'MSG_NODETAB_COUNT', 'MSG_NODETAB')]
+        for j in range(rng.randrange(40, 120)):
+            n_ = rng.choice(kinds) if rng.random() < 0.7 else 'MSG_SYS_ERROR'
+            sc.add(f't {nt} ' + up(model.build_msg(rng.choice(nodes), rng.choice([0, 0, rng.randrange(1, 256)]), model.C(n_), uplink.payload(rng, n_))))
     for t in range(nt):
         for j in range(per):
             ad = rng.choice(nodes)
@@ -118,7 +126,7 @@ def gen_sweep(ctx, part, pairs, ks, fn):
                 nm, ad2, a, data = gen.random_call(rng, ad, names=[name], hot=0.1)
                 return call(nm, *S.tokens(nm, ad, a))
             pre, post = [], []
-            if variant in ('held', 'recv'):
+            if variant in ('held', 'recv', 'recvpaused'):
                 # 30 + 30 bytes of expected answers: nothing with a response fits any more
                 pre = [mk('bidib_send_string_get'), mk('bidib_send_string_get'), 'flush']
                 post = [up(model.build_msg(ad, 0, STR, b'\x00\x00\x00')), up(model.build_msg(ad, 0, STR, b'\x00\x00\x00')), 'quiesce', 'flush', 'quiesce']
@@ -131,6 +139,15 @@ def gen_sweep(ctx, part, pairs, ks, fn):
                 b_lines = [up(model.build_msg(ad, 0, STR, b'\x00\x00\x00')), 'settle']
                 post = post[1:] + [up(model.build_msg(ad, 0, PONG, b'\x01')), up(model.build_msg(ad, 0, SWV, b'\x01\x02\x03')), 'quiesce']
                 sweep.add_two_thread_case(sc, idx, [mk(fa)], b_lines, k, fn, after=('quiesce', 'flush', 'quiesce'))
+                sent += 1
+                fbs = []
+            elif variant == 'recvpaused':
+                # the other way round: the RECEIVER is parked at its k-th scheduling point while it handles the answer that releases two held
+                # messages, and the application submits A to the same node right then - A is younger than what is being released
+                sc.add(mk('bidib_send_sys_ping'), mk('bidib_send_sys_get_sw_version'))
+                sent += 2
+                post = post[1:] + [up(model.build_msg(ad, 0, PONG, b'\x01')), up(model.build_msg(ad, 0, SWV, b'\x01\x02\x03')), 'quiesce']
+                sweep.add_receiver_case(sc, idx, [up(model.build_msg(ad, 0, STR, b'\x00\x00\x00'))], [mk(fa)], k, fn, after=('release', 'quiesce', 'flush', 'quiesce'))
                 sent += 1
                 fbs = []
             else:
@@ -152,10 +169,11 @@ def run_sweep(ctx):
     nodes = [(0, 0, 0), (1, 0, 0), (1, 2, 3)]
     allpairs = [(a, b, v, nodes[(i + j) % 3]) for i, a in enumerate(SWEEP_FNS) for j, b in enumerate(SWEEP_FNS) for v in ('plain', 'held')]
     allpairs += [(a, None, 'recv', nodes[i % 3]) for i, a in enumerate(SWEEP_FNS)]
+    allpairs += [(a, None, 'recvpaused', nodes[(i + 1) % 3]) for i, a in enumerate(SWEEP_FNS)]
     jobs = []
     part = 0
     kl, kf = (range(1, 13), range(1, 41)) if ctx.quick else (range(1, 15), range(1, 61))
-    sel = allpairs if not ctx.quick else [p for i, p in enumerate(allpairs) if (i + ctx.seed) % 3 == 0 or p[2] == 'recv']
+    sel = allpairs if not ctx.quick else [p for i, p in enumerate(allpairs) if (i + ctx.seed) % 3 == 0 or p[2] in ('recv', 'recvpaused')]
     for i in range(0, len(sel), 3):
         for fn, ks in ((False, kl), (True, kf)):
             text, meta = gen_sweep(ctx, part, sel[i:i + 3], ks, fn)
